@@ -94,8 +94,8 @@ def plain_pairs():
     out.append(Shape("c06_flat_enum_mixed", module(edef("derive_more::Debug"), edef("Debug"), hs), H(2), edef("derive_more::Debug").replace("\n", " "),
                      exercises=["impl/src/fmt/debug.rs::expand_enum", "src/fmt.rs::DebugTuple"], crate_attrs=CRATE_ATTRS))
     # generic and nested
-    add("generic", lambda d: "#[derive(%s)]\npub struct S<T, U>(pub T, pub U);\n#[derive(%s)]\npub struct N<'a, T: ?Sized> { pub r: &'a T, pub k: u8 }" % (d, d),
-        lambda m: "(%s::S(%s, %s::N { r: &ANCHOR, k: 0 }))" % (m, P % "i0", m), 1)
+    add("generic", lambda d: "#[derive(%s)]\npub struct S<T, U>(pub T, pub U);\n#[derive(%s)]\npub struct N<'a, T: ?Sized> { pub r: &'a T, pub k: Probe }" % (d, d),
+        lambda m: "(%s::S(%s, %s::N { r: &ANCHOR_PROBE, k: Probe::new(3) }))" % (m, P % "i0", m), 1)
     add("nested", lambda d: "#[derive(%s)]\npub struct Inner(pub Probe, pub Probe);\n#[derive(%s)]\npub struct Mid { pub x: Inner, pub y: Probe }\n#[derive(%s)]\npub struct S(pub Mid, pub Inner);" % (d, d, d),
         lambda m: "%s::S(%s::Mid { x: %s::Inner(%s, %s), y: %s }, %s::Inner(%s, %s))" % (m, m, m, P % "i0", P % "i1", P % "i2", m, P % "i1", P % "i0"), 3)
     # raw identifiers: type, variant and field names
@@ -163,7 +163,7 @@ def shapes(tier):
     out = plain_pairs() + skip_pairs() + field_format_pairs()
     for s in out:
         s.source = s.source.replace("use core::fmt::{self, FormattingOptions, Write as _};\n\n",
-                                    "use core::fmt::{self, FormattingOptions, Write as _};\npub static ANCHOR: u8 = 7;\n\n", 1)
+                                    "use core::fmt::{self, FormattingOptions, Write as _};\npub static ANCHOR_PROBE: Probe = Probe { id: 5 };\n\n", 1)
     if tier == "quick":
         out = [s for s in out if s.quick]
     return out
